@@ -2,6 +2,7 @@ package sim
 
 import (
 	"bytes"
+	"os"
 	"crypto/sha256"
 	"encoding/hex"
 	"fmt"
@@ -190,7 +191,11 @@ func (w *World) ProduceBlock(dtSec int, miss []int) {
 		} else {
 			w.St.Inc("txok:" + tx.Kind)
 		}
-		w.Logf("h=%d tx %s code=%d", h, tx.Kind, r0.Code)
+		if r0.Code != 0 {
+			w.Logf("h=%d tx %s code=%d %s", h, tx.Kind, r0.Code, firstLine(r0.Log))
+		} else {
+			w.Logf("h=%d tx %s code=%d", h, tx.Kind, r0.Code)
+		}
 		tr := TxResult{Tx: tx, Code: r0.Code, Log: r0.Log, Res: r0}
 		w.LastBlockTxs = append(w.LastBlockTxs, tr)
 		for _, o := range w.activeOracles() {
@@ -376,4 +381,16 @@ func (w *World) checkByzantineBound() {
 		w.Tainted = true
 		w.St.Probe("byzantine-power-above-bound")
 	}
+}
+
+func firstLine(s string) string {
+	for i, c := range s {
+		if c == '\n' && os.Getenv("MHUBSIM_HUBLOG") == "" {
+			return s[:i]
+		}
+	}
+	if len(s) > 160 && os.Getenv("MHUBSIM_HUBLOG") == "" {
+		return s[:160]
+	}
+	return s
 }
